@@ -10,7 +10,7 @@
 (* whitespace is ignored, the separator of the first path_spec may be      *)
 (* omitted (defaults to '>') when there is no subset_spec, the first       *)
 (* separator is never '.', a descriptor id is one or more of [0-9A-Z], a   *)
-(* slice is a Python slice: 1..3 optionally signed integers separated by   *)
+(* slice is a Python slice: 1..3 optionally signed (+/-) integers separated *)
 (* ':' (a single element may not be empty).                                *)
 (*                                                                         *)
 (* Two independent definitions:                                            *)
@@ -31,17 +31,17 @@ Upper  == {"A", "B", "C", "D", "E", "F", "G", "H", "I", "J", "K", "L", "M",
            "N", "O", "P", "Q", "R", "S", "T", "U", "V", "W", "X", "Y", "Z"}
 Seps   == {"/", ".", ">"}
 Specials == {"@", "[", "]", ":"} \cup Seps
-IsSpace(c) == c = " "
+IsSpace(c) == c \in {" ", "\t", "\n"}
 
 DigitVal(c) == CASE c = "0" -> 0 [] c = "1" -> 1 [] c = "2" -> 2 [] c = "3" -> 3 [] c = "4" -> 4
                  [] c = "5" -> 5 [] c = "6" -> 6 [] c = "7" -> 7 [] c = "8" -> 8 [] c = "9" -> 9
 
 IsId(w)  == Len(w) >= 1 /\ \A i \in 1..Len(w) : w[i] \in Digits \cup Upper
-Unsigned(w) == IF Len(w) >= 1 /\ w[1] = "-" THEN Tail(w) ELSE w
+Unsigned(w) == IF Len(w) >= 1 /\ w[1] \in {"-", "+"} THEN Tail(w) ELSE w
 IsInt(w) == Len(Unsigned(w)) >= 1 /\ \A i \in 1..Len(Unsigned(w)) : Unsigned(w)[i] \in Digits
 RECURSIVE NatVal(_, _, _)
 NatVal(w, i, acc) == IF i > Len(w) THEN acc ELSE NatVal(w, i + 1, 10 * acc + DigitVal(w[i]))
-IntVal(w) == IF w[1] = "-" THEN 0 - NatVal(Tail(w), 1, 0) ELSE NatVal(w, 1, 0)
+IntVal(w) == IF w[1] = "-" THEN 0 - NatVal(Tail(w), 1, 0) ELSE NatVal(Unsigned(w), 1, 0)
 
 (* ---- slice values (None is the empty sequence) -------------------------- *)
 None == <<>>
